@@ -155,10 +155,16 @@ class DynamicSchedulePass( BasePass ):
 
         scc_id += 1
         variables = set()
+        value_constraints = getattr( top._dag, 'value_constraints', None )
         for (u, v) in E:
           # Collect all variables that triggers other blocks in the SCC
           if u in scc and v in scc:
             variables.update( constraint_objs[ (u, v) ] )
+            # An ordering constraint along which no value flows cannot be
+            # satisfied inside a cycle, however often the cycle is evaluated
+            if value_constraints is not None and (u, v) not in value_constraints:
+              raise UpblkCyclicError("The ordering constraint {} < {} is part of a cyclic dependency:\n{}"\
+                              .format( u.__name__, v.__name__, ", ".join( [ x.__name__ for x in scc] )))
 
         if len(variables) == 0:
           raise UpblkCyclicError("There is a cyclic dependency without involving variables."
